@@ -63,6 +63,11 @@ CHECKS = {
    note=TB + "Time strings are parsed by Go (oracle), UTC only. The evaluator in the theorem uses float integer division, as C09 does; generated predicates contain no division.",
    technique="Coq proof (induction over conditions, built on the C09 soundness theorem) + generated correspondence and boundary-point evaluation",
    design="5 C10"),
+ "C14": dict(
+   text="Model: Clone, cloneSource(s), Measurement.Clone, CloneExpr, CloneRegexLiteral over ASTs whose heap objects (node structs, slice backing arrays) carry addresses, in an allocator monad. Theorems (all statements/expressions, any nesting, structural induction): the clone erases to the same AST as the original (faithful, field by field); every mutable location of the clone was allocated by the call, so clone and original share no mutable node (the compiled regexps CloneExpr shares on purpose are tracked separately); any finite sequence of writes to locations outside an object graph leaves it exactly as it was (independence under every history of in-place changes). Tie: Clone/CloneExpr vs model on corpus + generated SELECTs: structural equality, and the sharing pattern node by node (pointer identity of every node and slice array of the clone against the original's address set; regexp sharing flags) compared with the model's; histories of in-place rewrites and field/slice mutations on either side with snapshots of the other; 11 derived operations snapshot-checked to leave the receiver unchanged.",
+   note=TB + "Go's memory model (code can write only through pointers it holds) is the premise of the independence theorem. Fix b97d4a5 (IsTarget dropped by Clone) was found here; the model is of the repaired code.",
+   technique="Coq proof (structural induction in an allocator monad; frame lemma over memories) + pointer-identity and mutation-history differential testing",
+   design="5 C14"),
  "C03": dict(
    text="Theorems (all chains, all operands, by induction): the tree ParseExpr's right-spine insertion builds from a chain yields the chain in order and is Grouped (left children bind at least as tight, right children strictly tighter); there is exactly one Grouped tree per chain; the function on real BinaryExpr nodes builds that tree for every operand parseUnaryExpr can return; precedence/isOperator tables by computation over the whole enumeration; right spine <= 5. Tie: token table compared exhaustively with the running code; every chain of <=3 (thorough <=4) operators over all 18 spellings plus random chains with parenthesised, negated and literal operands compared (ParseExpr vs model, composed from separately parsed operands) and checked directly against the documented five-level reading and against re-parsing of the printed tree.",
    note=TB + "Re-printing is guarded by the known finding C02-neg-rhs (unary sign desugared without ParenExpr).",
